@@ -20,7 +20,7 @@ RULE = ('one run = one seeded history of up to 30 database operations on one eng
         'had >= 1 fact or the op changed the store; distinct = hash of (op kind, route, form, predicate, pattern, contents of that predicate in the model)')
 ASSUMPTIONS = [
     'ground facts only (non-ground stored facts are C13); no mutation of a predicate while one of its enumerations is suspended (that is C14)',
-    'after clear() the harness reloads its compiled wrapper clauses, as any API user would have to',
+    'after clear() the harness reloads its compiled wrapper clauses, as any API user would have to, and goes on using the atom objects it obtained before (atoms are equal by name)',
     'the observer reads compound terms through Functor._name/_args',
 ]
 COMPONENTS = {'real': ['yldprolog.engine fact store, builtins asserta/assertz/retract/retractall, clear, query', 'compiled wrapper clauses (real compiler output)'],
@@ -161,12 +161,34 @@ def sample_view(plan):
     return [show_op(op) for op in plan['ops']]
 
 
+class KeptAtoms:
+    """what TM.build sees instead of the engine: atoms are asked from the engine only once per name and then kept
+    by the caller - also across clear(), after which the engine would hand out new objects of the same name
+    (atoms are equal by name, whichever object the user holds)"""
+
+    def __init__(self, yp):
+        self.yp = yp
+        self.kept = {}
+
+    def atom(self, name):
+        if name not in self.kept:
+            self.kept[name] = self.yp.atom(name)
+        return self.kept[name]
+
+    def functor(self, name, args):
+        return self.yp.functor(name, args)
+
+    def variable(self):
+        return self.yp.variable()
+
+
 class Exec:
     def __init__(self, log):
         from yldprolog.engine import YP, unify
         self.unify = unify
         self.log = log
         self.yp = YP()
+        self.b = KeptAtoms(self.yp)
         self.load_wrappers()
         self.model = FactStore()
         self.seen = {}
@@ -181,7 +203,7 @@ class Exec:
         yp = self.yp
         name, ar = KEYS[ki]
         vmap = {}
-        pargs = [TM.build(yp, TM.T(t), vmap) for t in pat[:ar]]
+        pargs = [TM.build(self.b, TM.T(t), vmap) for t in pat[:ar]]
         held = None
         if route == 'inline':
             return yp.query('i_%s_%s_%d' % (kind, name, ar), pargs), pargs, None
@@ -264,7 +286,7 @@ def execute(plan):
                 if key[1] == 0:
                     log.count('arity0_ops')
                 if route == 'fact':
-                    yp.assert_fact(yp.atom(key[0]), [TM.build(yp, TM.T(t), {}) for t in row], not front)
+                    yp.assert_fact(yp.atom(key[0]), [TM.build(ex.b, TM.T(t), {}) for t in row], not front)
                     n_ans = 1
                 else:
                     g, pargs, held = ex.goal('asserta' if front else 'assertz', route, form, ki, row)
@@ -406,7 +428,7 @@ def execute(plan):
                 if not model.rows(key):
                     log.count('op_on_predicate_without_facts')
                 vmap = {}
-                pargs = [TM.build(yp, t, vmap) for t in pat]
+                pargs = [TM.build(ex.b, t, vmap) for t in pat]
                 g = yp.query(key[0], pargs) if route == 'api' else yp.query('i_query_%s_%d' % key, pargs)
                 got = []
                 for _ in g:
